@@ -462,6 +462,47 @@ example : (seqRun [Stage.split BrSt
       .islice 0 (some 1) 1] (Pipe.ofFn (fun (i : Nat) => ({ d := i, ctx := [] } : V)))).take 60 3
     = ([(({ d := 2, ctx := [("count", 2)] } : V), 4)], Ending.exhausted, 4) := by decide
 
+/-! ## `Split.__init__`: when a finite `bufsize` is given up -/
+
+/-- **`effBufsize_no_cache`** — a `Split` keeps the `bufsize` it was given unless a sequence-type branch
+contains a `Cache`: in particular a nested `Split` — whatever its own `bufsize`, also `None` — does not
+make the outer `Split` read the whole flow (the tree `CTree.split` does not even carry the inner bufsize). -/
+theorem effBufsize_no_cache (bufsize : Option Nat) (brs : List (Lena.C03.Kind × CTree))
+    (h : ∀ b ∈ brs, b.1 = Lena.C03.Kind.sequence → containsCache b.2 = false) :
+    effBufsize bufsize brs = bufsize := by
+  unfold effBufsize
+  have : brs.any (fun b => b.1 == Lena.C03.Kind.sequence && containsCache b.2) = false := by
+    rw [List.any_eq_false]
+    intro b hb
+    by_cases hk : b.1 = Lena.C03.Kind.sequence
+    · simp [hk, h b hb hk]
+    · simp [hk]
+  simp [this]
+
+/-- **`effBufsize_cache`** — with a `Cache` in a sequence-type branch every `bufsize` becomes `None` -/
+theorem effBufsize_cache (bufsize : Option Nat) (brs : List (Lena.C03.Kind × CTree)) (t : CTree)
+    (hb : (Lena.C03.Kind.sequence, t) ∈ brs) (hc : containsCache t = true) : effBufsize bufsize brs = none := by
+  unfold effBufsize
+  cases bufsize with
+  | none => simp
+  | some b =>
+    have : brs.any (fun b => b.1 == Lena.C03.Kind.sequence && containsCache b.2) = true :=
+      List.any_eq_true.mpr ⟨_, hb, by simp [hc]⟩
+    simp [this]
+
+/-- `_contains_cache` looks into nested `Split`s, sequences and `RunIf`s: a tree contains a `Cache` iff one
+of its sub-trees does -/
+theorem containsCache_split (seqs : List CTree) : containsCache (.split seqs) = seqs.any containsCache := by
+  rw [containsCache]
+  induction seqs with
+  | nil => rfl
+  | cons t r ih => simp [anyCache, ih]
+
+example : effBufsize (some 2)
+    [(.sequence, .seq [.leaf]), (.sequence, .seq [.split [.seq [.leaf], .seq [.leaf]]])] = some 2 := by decide
+example : effBufsize (some 2) [(.sequence, .seq [.split [.seq [.leaf, .seq [.cache]]]])] = none := by decide
+example : effBufsize (some 2) [(.fillCompute, .seq [.cache, .leaf])] = some 2 := by decide
+
 /-! ## `bufsize=None` over an infinite input -/
 
 /-- **`split_none_never_returns`** — `Split(…, bufsize=None)` materialises its input (documented): over an
